@@ -1,6 +1,7 @@
 (* C05: trader actions never leave the trader under-margined.  Statements only. *)
 From MP.Model Require Import Prelude U128 SInt Feed Vamm VammOps Token World Engine Runtime.
-From MP.Proofs Require Import Tactics EngineGuards EngineArith CloseFacts MoreFacts OpenRatioFacts Scenario.
+From MP.Proofs Require Import Tactics EngineGuards EngineArith CloseFacts MoreFacts OpenRatioFacts.
+From MP.Model Require Import Scenario.
 
 (* leverage below 1 or above 1/initial-margin-ratio is rejected *)
 Theorem C05_leverage_bounds : forall w t v s m l lim f r,
